@@ -27,8 +27,8 @@ META = {
     ],
     "required_counters": ["wiring_cases", "scenarios", "saturated_configs"],
     "bounds": {
-        "quick": {"A": [1, 2], "P": [0, 1, 2], "n": "A+P+3", "max_body": "2 for A+P>=4", "L1": "(A,P) in {(1,0),(1,1),(2,0)} with <=2 completions"},
-        "thorough": {"A": [1, 2, 3, 4], "P": [0, 1, 2, 3, 4], "n": "A+P+3", "max_body": "3 for A+P>=4", "L1": "(A,P) in {(1,0),(1,1),(2,0),(2,1),(1,2),(3,0)}"},
+        "quick": {"A": [1, 2], "P": [0, 1, 2], "n": "A+P+3", "max_body": "2 for A+P>=4", "L1": "(A,P) in {(1,0),(1,1),(2,0),(2,1),(3,0)} with <=2 completions and n=A+P+4", "deep": "n=A+P+2+k after k<=3 completions for 4 configs"},
+        "thorough": {"A": [1, 2, 3, 4], "P": [0, 1, 2, 3, 4], "n": "A+P+3", "max_body": "3 for A+P>=4", "L1": "(A,P) in {(1,0),(1,1),(2,0),(2,1),(1,2),(3,0),(3,1),(2,2)}, n=A+P+4", "deep": "n=A+P+5 after 3 completions, A in 1..3, P in 0..2"},
     },
 }
 
@@ -63,10 +63,17 @@ def scenarios(tier: str) -> List[Dict[str, Any]]:
             msgs[pos + 2] = {"kind": "stream_error"}
             out.append({"A": a, "P": p, "N": None, "stream": "infinite", "stop": False, "level": 0, "max_body": 2, "msgs": msgs,
                         "no_saturation_required": True})
-    l1 = [(1, 0), (1, 1), (2, 0)] if tier == "quick" else [(1, 0), (1, 1), (2, 0), (2, 1), (1, 2), (3, 0)]
+    l1 = [(1, 0), (1, 1), (2, 0), (2, 1), (3, 0)] if tier == "quick" else [(1, 0), (1, 1), (2, 0), (2, 1), (1, 2), (3, 0), (3, 1), (2, 2)]
     for a, p in l1:
+        # n = bound + 1 + completions: a surplus permit created by the max_body-th completion (or by two
+        # completions in one loop iteration) still has a further backlog message to show itself on
         out.append({"A": a, "P": p, "N": None, "stream": "infinite", "stop": False, "level": 1, "max_body": 2,
-                    "msgs": [{} for _ in range(a + p + 3)]})
+                    "msgs": [{} for _ in range(a + p + 4)]})
+    # longer backlogs at level 0: the bound after two and three completions in every order
+    deep = [(1, 0, 3), (2, 0, 3), (1, 1, 2), (2, 1, 2)] if tier == "quick" else [(a, p, 3) for a in (1, 2, 3) for p in (0, 1, 2)]
+    for a, p, k in deep:
+        out.append({"A": a, "P": p, "N": None, "stream": "infinite", "stop": False, "level": 0, "max_body": k,
+                    "msgs": [{} for _ in range(a + p + 2 + k)]})
     return out
 
 
